@@ -235,6 +235,13 @@ pub enum Op {
     },
     Lock(String),
     Unlock(String),
+    /// Another writer holds `packed-refs.lock` when the transaction starts, rewrites packed-refs
+    /// (`mods`: name -> new object, or removal) and releases the lock while the transaction waits
+    /// for it (`AfterDurationWithBackoff`).
+    Race {
+        mods: Vec<(String, Option<String>)>,
+        txn: Box<Op>,
+    },
 }
 
 impl Op {
@@ -274,6 +281,16 @@ impl Op {
             Op::GitPack { all, prune } => format!("gitpack-refs all={} prune={}", *all as u8, *prune as u8),
             Op::Lock(n) => format!("lock {n}"),
             Op::Unlock(n) => format!("unlock {n}"),
+            Op::Race { mods, txn } => {
+                let m: Vec<String> = mods
+                    .iter()
+                    .map(|(n, o)| match o {
+                        Some(o) => format!("+{n}={o}"),
+                        None => format!("-{n}"),
+                    })
+                    .collect();
+                format!("race {} {}", if m.is_empty() { "-".to_string() } else { m.join(",") }, txn.fmt())
+            }
         }
     }
 
@@ -334,6 +351,34 @@ impl Op {
                 Some(Op::GitPack {
                     all: flag(toks[1], "all=")?,
                     prune: flag(toks[2], "prune=")?,
+                })
+            }
+            "race" => {
+                if toks.len() < 3 {
+                    return None;
+                }
+                let mut mods = Vec::new();
+                if toks[1] != "-" {
+                    for m in toks[1].split(',') {
+                        if let Some(rest) = m.strip_prefix('+') {
+                            let (n, o) = rest.split_once('=')?;
+                            if !valid_name(n) || !OIDS.contains(&o) {
+                                return None;
+                            }
+                            mods.push((n.to_string(), Some(o.to_string())));
+                        } else {
+                            let n = m.strip_prefix('-')?;
+                            if !valid_name(n) {
+                                return None;
+                            }
+                            mods.push((n.to_string(), None));
+                        }
+                    }
+                }
+                let txn = Op::parse(&toks[2..])?;
+                matches!(txn, Op::Txn { .. }).then(|| Op::Race {
+                    mods,
+                    txn: Box::new(txn),
                 })
             }
             "lock" | "unlock" => {
@@ -842,6 +887,7 @@ impl World {
                     Err(_) => Applied::Done("blocked".into()),
                 }
             }
+            Op::Race { mods, txn } => self.apply_race(mods, txn),
             Op::Unlock(name) => {
                 let p = self.lock_path(name);
                 match std::fs::remove_file(&p) {
@@ -860,6 +906,78 @@ impl World {
                     Err(_) => Applied::Done("none".into()),
                 }
             }
+        }
+    }
+}
+
+impl World {
+    /// The packed-refs file as (name, hex) pairs (peeled lines are dropped).
+    fn packed_entries(&self) -> Vec<(String, String)> {
+        let Ok(data) = std::fs::read(self.git_dir.join("packed-refs")) else { return Vec::new() };
+        String::from_utf8_lossy(&data)
+            .lines()
+            .filter(|l| !l.starts_with('#') && !l.starts_with('^'))
+            .filter_map(|l| l.split_once(' ').map(|(h, n)| (n.to_string(), h.to_string())))
+            .collect()
+    }
+
+    /// See `Op::Race`. The other writer does what every writer of packed-refs does: create
+    /// `packed-refs.lock` with the new content, then rename it onto `packed-refs`.
+    fn apply_race(&mut self, mods: &[(String, Option<String>)], txn: &Op) -> Applied {
+        let Op::Txn { edits, mode, rf, .. } = txn else { return Applied::Done("bad-race".into()) };
+        let mut entries: BTreeMap<String, String> = self.packed_entries().into_iter().collect();
+        for (n, o) in mods {
+            match o {
+                Some(o) => {
+                    entries.insert(n.clone(), self.oid_of[o].to_string());
+                }
+                None => {
+                    entries.remove(n);
+                }
+            }
+        }
+        let mut text = String::from("# pack-refs with: peeled fully-peeled sorted \n");
+        for (n, h) in &entries {
+            text.push_str(&format!("{h} {n}\n"));
+        }
+        let lock = self.git_dir.join("packed-refs.lock");
+        {
+            use std::io::Write;
+            let Ok(mut f) = std::fs::OpenOptions::new().write(true).create_new(true).open(&lock) else {
+                return Applied::Done("race-lock-busy".into());
+            };
+            let _ = f.write_all(text.as_bytes());
+        }
+        // the transaction under test: waits for packed-refs.lock for up to 8 s
+        let edits: Vec<RefEdit> = edits.iter().map(|e| self.real_edit(e)).collect();
+        let git_dir = self.git_dir.clone();
+        let objects = self.objects.clone();
+        let (mode, rf) = (*mode, rf.real());
+        let pf = gix_lock::acquire::Fail::AfterDurationWithBackoff(std::time::Duration::from_secs(8));
+        let (tx, rx) = std::sync::mpsc::channel();
+        let (started_tx, started_rx) = std::sync::mpsc::channel();
+        std::thread::spawn(move || {
+            let _ = started_tx.send(());
+            let r = catch(move || run_txn(git_dir, objects, edits, mode, rf, pf));
+            let _ = tx.send(r);
+        });
+        let _ = started_rx.recv_timeout(std::time::Duration::from_secs(30));
+        // give it time to get to the lock (and, if it reads the snapshot too early, to read it)
+        std::thread::sleep(std::time::Duration::from_millis(300));
+        let early = rx.try_recv().ok();
+        // the other writer commits and releases
+        let _ = std::fs::rename(&lock, self.git_dir.join("packed-refs"));
+        let res = match early {
+            Some(r) => Some(r),
+            None => rx.recv_timeout(std::time::Duration::from_secs(40)).ok(),
+        };
+        match res {
+            None => {
+                self.hangs += 1;
+                Applied::Hang
+            }
+            Some(Ok(s)) => Applied::Done(s),
+            Some(Err(_)) => Applied::Done("panic".into()),
         }
     }
 }
@@ -1169,6 +1287,7 @@ pub fn touched(op: &Op, view: &BTreeMap<String, Tgt>) -> Vec<String> {
         }
         Op::Lock(n) => out.push(n.clone()),
         Op::Unlock(_) | Op::GitPack { .. } => {}
+        Op::Race { txn, .. } => return touched(txn, view),
     }
     out
 }
